@@ -40,6 +40,7 @@ class Scenario:
         self.budget = budget if budget is not None else [600]
         self.trace = []
         self.fresh = False
+        self.outcome = None
 
     # ---- places / operands
     def place(self, pl):
@@ -216,7 +217,8 @@ class Scenario:
         # everything else that is handed a &mut to a tracked local may change it
         known_pure = re.search(IDENT, callee) or last in ("eq", "ne", "len", "is_empty", "from_utf8", "strip_suffix", "strip_prefix", "map_err", "ok",
                                                             "branch", "from_residual", "poll", "new_unchecked", "get_context", "from_str_radix", "parse",
-                                                            "ok_or", "ok_or_else", "is_some", "is_none", "is_ok", "is_err", "unwrap_or", "and_then", "map", "filter", "cloned", "copied", "as_deref", "map_or")
+                                                            "ok_or", "ok_or_else", "is_some", "is_none", "is_ok", "is_err", "unwrap_or", "and_then", "map", "filter", "cloned", "copied", "as_deref", "map_or",
+                                                            "iter", "chars", "bytes", "all", "any", "starts_with", "ends_with", "contains", "first", "last", "count", "as_bytes", "to_vec", "find", "position")
         if not known_pure and not (resolved in self.prog.bodies):
             for a, ty in zip(args, t.get("arg_tys", [])):
                 if ty.startswith("&mut") and a is not None and a[0] == "ref":
@@ -238,6 +240,19 @@ class Scenario:
             if a0[0] == a1[0] == "int":
                 return ("bool", (a0[1] == a1[1]) == (last == "eq"))
             return None
+        if last in ("iter", "chars", "bytes", "into_iter", "char_indices", "lines", "split_whitespace", "as_bytes", "to_vec", "to_owned", "to_string", "to_lowercase", "to_uppercase",
+                    "to_ascii_lowercase", "to_ascii_uppercase", "trim_matches", "trim_end_matches", "trim_start_matches", "rev", "by_ref", "peekable", "copied", "cloned") and a0 == EMPTY:
+            return EMPTY
+        if last == "all" and a0 == EMPTY:
+            return ("bool", True)
+        if last == "any" and a0 == EMPTY:
+            return ("bool", False)
+        if last in ("starts_with", "ends_with", "contains") and a0 == EMPTY and a1 is not None and a1[0] in ("lit", "int"):
+            return ("bool", False)
+        if last in ("first", "last", "next", "peek", "next_back", "find", "position", "split_once", "rsplit_once", "split_first", "split_last", "max", "min") and a0 == EMPTY:
+            return ("variant", "None", None)
+        if last == "count" and a0 == EMPTY:
+            return ("int", 0)
         if last == "len" and a0 == EMPTY:
             return ("int", 0)
         if last == "is_empty" and a0 == EMPTY:
@@ -369,16 +384,41 @@ class Scenario:
             self.exec_block(blk)
             t = self.b.term(blk)
             if t["k"] in ("return", "unreachable", "resume"):
+                self.outcome = ("returned", self.env.get(0)) if t["k"] == "return" else ("stopped", blk)
                 return "exit", self.trace
             try:
                 nb = self.next_block(blk)
             except Undecided as e:
                 return "undecided", str(e)
             if nb is None:
+                self.outcome = ("stopped", blk)
                 return "exit", self.trace
             if nb not in loop_nodes:
+                self.outcome = self.after_loop(nb)
                 return "exit", self.trace
             blk = nb
+
+    def after_loop(self, blk):
+        """What the EOF scenario does once it has left the loop: ("returned", abstract value) when the store decides every branch up to a
+        return, else ("stopped", block) at the first undecided branch."""
+        seen = set()
+        while blk is not None and blk not in seen and self.budget[0] > 0:
+            seen.add(blk)
+            self.budget[0] -= 1
+            self.exec_block(blk)
+            t = self.b.term(blk)
+            if t["k"] == "return":
+                return ("returned", self.env.get(0))
+            if t["k"] in ("unreachable", "resume"):
+                return ("stopped", blk)
+            try:
+                nb = self.next_block(blk)
+            except Undecided:
+                return ("stopped", blk)
+            if nb is None:
+                return ("stopped", blk)
+            blk = nb
+        return ("stopped", blk)
 
 
 def buffer_root(body, operand):
@@ -432,5 +472,13 @@ def scan(prog, body, consuming=()):
                     inits.append(b2)
             sc.fresh = bool(inits) and core.must_pass(body, [r], [r], through_nodes=inits) is None
         verdict, detail = sc.run_cycle(r, nodes)
-        out.append((r, verdict, detail))
+        out.append(Result3((r, verdict, detail), sc.outcome))
     return out
+
+
+class Result3(tuple):
+    """(call_block, verdict, detail) with the scenario's outcome after the loop as an attribute"""
+    def __new__(cls, t, outcome):
+        o = super().__new__(cls, t)
+        o.outcome = outcome
+        return o
